@@ -136,3 +136,153 @@ Example C10_memo_ex_set_before_use :
   set_before_use [] [NewObj 0; SetState 0 4; Call 0 [AVal 1; AVal 1; AVal 5; ARef 0]; NewObj 1; SetState 1 2;
                      Call 0 [AVal 1; AVal 1; AVal 5; ARef 1]; Call 0 [AVal 1; AVal 1; AVal 5; ARef 0]] = true.
 Proof. exact set_before_use_ex. Qed.
+
+(* ---------- translator tie of the array handling (Determ/ProofsTie.v) ----------
+   coq/gen/DetermGen.v is regenerated from psiaudio/stim.py on every run by translate/pydeterm2coq.py (an aliasing translator:
+   which array a statement hands on is a VIEW of an existing storage, a FRESH array, or an in-place write; vocabulary in
+   Determ/TieLib.v).  The theorems below say that the regenerated definitions ARE the model the theorems above are about. *)
+From PV Require Import Determ.TieLib gen.DetermGen Determ.ProofsTie.
+
+(* FixedWaveform.next = the model's (repaired) step: a copy / a zero-padded concatenation, never a view of the stored
+   waveform.  Invariant: position and request are not negative. *)
+Theorem C10_source_fixed_next : forall h w arr off n, 0 <= off -> 0 <= n ->
+  lift_fixed w (gen_fixed_next h (fixed_of arr off) n) = onext all_repaired h (OFixed w arr off) n.
+Proof. exact fixed_next_tie. Qed.
+Print Assumptions C10_source_fixed_next.
+
+(* ... which fails without it: a negative position is a bound counted from the end in the code, clipped in the model *)
+Theorem C10_source_fixed_next_refuted : exists h w arr off n, 0 <= n /\
+  lift_fixed w (gen_fixed_next h (fixed_of arr off) n) <> onext all_repaired h (OFixed w arr off) n.
+Proof. exact fixed_next_tie_refuted. Qed.
+Print Assumptions C10_source_fixed_next_refuted.
+
+(* ToneFactory.next: a fresh writable array with the next stream positions *)
+Theorem C10_source_tone_next : forall h c off n,
+  lift_car c (gen_tone_next c h {| car_offset := off |} n) = onext all_repaired h (OCar c off) n.
+Proof. exact tone_next_tie. Qed.
+Print Assumptions C10_source_tone_next.
+
+(* SilenceFactory.next: like the model's carrier, a fresh writable storage of the same length behind the same view *)
+Theorem C10_source_silence_next : forall h st n c off, exists d d',
+  gen_silence_next h st n = Some (st, h ++ [mks d false], mkv (zlen h) 0 (zlen d)) /\
+  onext all_repaired h (OCar c off) n = Some (OCar c (off + n), h ++ [mks d' false], mkv (zlen h) 0 (zlen d')) /\
+  zlen d = zlen d' /\ d = repeat (silence_fill_value st) (Z.to_nat n).
+Proof. exact silence_next_tie. Qed.
+Print Assumptions C10_source_silence_next.
+
+(* GateFactory.next, for EVERY wrapped generator: the array it receives is zeroed in place outside the gate and handed on *)
+Theorem C10_source_gate_next : forall (inner_next : heap -> Z -> option (obj * heap * view)) h s d off n,
+  lift_gate (gen_gate_next inner_next h (gate_of s d off) n) =
+  match inner_next h n with
+  | None => None
+  | Some (inner', h1, v) =>
+    let lb := s - off in
+    let ub := lb + d in
+    let h2 := if lb >=? 0 then zero_range h1 v 0 (Z.to_nat (np_clip lb 0 (v_len v))) else Some h1 in
+    match h2 with
+    | None => None
+    | Some h2 =>
+      let a := np_clip (Z.max ub 0) 0 (v_len v) in
+      match zero_range h2 v a (Z.to_nat (v_len v - a)) with
+      | None => None
+      | Some h3 => Some (OGate s d (off + n) inner', h3, v)
+      end
+    end
+  end.
+Proof. exact gate_next_tie. Qed.
+Print Assumptions C10_source_gate_next.
+
+(* next() / reset() of every object of the model, dispatched to the generated methods = onext / oreset *)
+Theorem C10_source_onext : forall o h n, idx_ok o -> 0 <= n -> gen_onext o h n = onext all_repaired h o n.
+Proof. exact gen_onext_tie. Qed.
+Print Assumptions C10_source_onext.
+
+Theorem C10_source_oreset : forall o, gen_oreset o = oreset o.
+Proof. exact gen_oreset_tie. Qed.
+Print Assumptions C10_source_oreset.
+
+(* fast_cache: the wrapper regenerated from the source = look the key (positional arguments, marker, sorted keyword items)
+   up; hit: the stored object itself; miss: store the result, make every ndarray of it read-only *)
+Theorem C10_source_wrapper : forall h cache args kw fres,
+  gen_fast_cache_wrapper h cache args kw fres = ref_wrapper h cache args kw fres.
+Proof. exact wrapper_tie. Qed.
+Print Assumptions C10_source_wrapper.
+
+Theorem C10_source_key_inj : forall a1 k1 a2 k2, ref_key a1 k1 = ref_key a2 k2 ->
+  a1 = a2 /\ py_sorted (kw_items k1) = py_sorted (kw_items k2).
+Proof. exact ref_key_inj. Qed.
+Print Assumptions C10_source_key_inj.
+
+Theorem C10_source_miss_array : forall h cache args kw d, cache_get (ref_key args kw) cache = None ->
+  gen_fast_cache_wrapper h cache args kw (ROne (EArr d)) =
+  (let '(h', v) := alloc h d true in Some (h', (ref_key args kw, OArr v) :: cache, OArr v)).
+Proof. exact miss_array. Qed.
+Print Assumptions C10_source_miss_array.
+
+Theorem C10_source_miss_tuple : forall h cache args kw l, cache_get (ref_key args kw) cache = None ->
+  gen_fast_cache_wrapper h cache args kw (RTuple l) =
+  Some (h ++ map (fun d => mks d true) (arrs l), (ref_key args kw, OTuple (objs_at (zlen h) l)) :: cache,
+        OTuple (objs_at (zlen h) l)).
+Proof. exact miss_tuple. Qed.
+Print Assumptions C10_source_miss_tuple.
+
+Theorem C10_source_hit : forall h cache args kw fres o, cache_get (ref_key args kw) cache = Some o ->
+  gen_fast_cache_wrapper h cache args kw fres = Some (h, cache, o).
+Proof. exact hit_same_object. Qed.
+Print Assumptions C10_source_hit.
+
+(* the wrapper on the model's memoised call = the CachedCall step with the cache repair on *)
+Theorem C10_source_cachedcall : forall argsof kwof h memo k n, calls_distinct argsof kwof ->
+  gen_fast_cache_wrapper h (enc_cache argsof kwof memo) (argsof k) (kwof k) (ROne (EArr (zrange (memo_code k) 0 n))) =
+  match assoc k memo with
+  | Some v => Some (h, enc_cache argsof kwof memo, OArr v)
+  | None => let '(h', v) := alloc h (zrange (memo_code k) 0 n) (r_cache_ro all_repaired) in
+            Some (h', enc_cache argsof kwof ((k, v) :: memo), OArr v)
+  end.
+Proof. exact wrapper_cachedcall_tie. Qed.
+Print Assumptions C10_source_cachedcall.
+
+(* every program run with the GENERATED next / reset / memo functions behaves as the model says ... *)
+Theorem C10_source_run : forall argsof kwof, calls_distinct argsof kwof -> forall p, forallb wf_op p = true ->
+  gen_run argsof kwof (w0, []) p = run all_repaired w0 p.
+Proof. exact gen_run_w0. Qed.
+Print Assumptions C10_source_run.
+
+(* ... hence C10_refines_pure and C10_cached_pure hold of the definitions regenerated from the source *)
+Theorem C10_source_refines_pure : forall argsof kwof, calls_distinct argsof kwof -> forall p, forallb wf_op p = true ->
+  next_obs p (gen_run argsof kwof (w0, []) p) = prun [] p.
+Proof. exact source_refines_pure. Qed.
+Print Assumptions C10_source_refines_pure.
+
+Theorem C10_source_cached_pure : forall argsof kwof, calls_distinct argsof kwof -> forall p k o, forallb wf_op p = true ->
+  In (k, o) (cached_obs p (gen_run argsof kwof (w0, []) p)) ->
+  exists n, first_n k p = Some n /\ o = OVals (zrange (memo_code k) 0 n).
+Proof. exact source_cached_pure. Qed.
+Print Assumptions C10_source_cached_pure.
+
+(* calls_distinct (different model keys are different calls) is needed and satisfiable *)
+Theorem C10_source_cached_pure_refuted : exists p k o, forallb wf_op p = true /\
+  In (k, o) (cached_obs p (gen_run (fun _ => []) (fun _ => []) (w0, []) p)) /\
+  forall n, o <> OVals (zrange (memo_code k) 0 n).
+Proof. exact source_cached_pure_refuted. Qed.
+Print Assumptions C10_source_cached_pure_refuted.
+
+Example C10_source_calls_distinct_ex : calls_distinct (fun k => [PInt k]) (fun _ => []).
+Proof. exact calls_distinct_ex. Qed.
+
+Example C10_source_idx_ok_ex : idx_ok (OGate 1 3 0 (OFixed 0 (mkv 0 0 6) 0)).
+Proof. exact idx_ok_ex. Qed.
+
+(* the wrapper against the memo table over mutable argument objects (Determ/ModelMemo.v: one table per function, arguments as
+   passed, objects by identity): a hit hands out the stored array of the entry the model finds (same allocation number), a
+   miss allocates storage number `next` read-only and records it *)
+Theorem C10_source_mstep : forall h f k (m : list ModelMemo.mentry) next r, zlen h = next ->
+  gen_fast_cache_wrapper h (enc_mcache f m) (map enc_arg k) [] (ROne (EArr [r])) =
+  match mlookup f k m with
+  | Some e => Some (h, enc_mcache f m, OArr (mkv (e_sid e) 0 1))
+  | None => Some (h ++ [mks [r] true],
+                  enc_mcache f ({| e_fun := f; e_key := k; e_res := r; e_sid := next |} :: m),
+                  OArr (mkv next 0 1))
+  end.
+Proof. exact wrapper_mstep_tie. Qed.
+Print Assumptions C10_source_mstep.
